@@ -20,7 +20,7 @@ for d in sorted(glob.glob(os.path.join(ROOT, 'seeded', '*'))):
         row = {}
         for pid in (props or [target]):
             t0 = time.time()
-            c = sh('cd %s && ./check %s' % (ROOT, pid))
+            c = sh('cd %s && mkdir -p gen/ev_seeded && VERIF_EVIDENCE_DIR=%s/gen/ev_seeded ./check %s' % (ROOT, ROOT, pid))
             v = [l for l in c.stdout.split('\n') if l.startswith('VIOLATION') or l.startswith('FAILED-OBLIGATION') or l.startswith('MACHINERY') or l.startswith('FAILING-INPUT')]
             row[pid] = dict(rc=c.returncode, lines=v[:6], s=round(time.time() - t0))
             print('%-8s %s rc=%d %3ds  %s' % (name, pid, c.returncode, time.time() - t0, ' | '.join(x[:150] for x in v[:3])), flush=True)
